@@ -944,6 +944,11 @@ pub fn gen_aiger_bounds(binary: bool, lit_ty: &str, rng: &mut StdRng) -> Vec<u8>
     }).collect();
     if j > 0 {
         hdr.push_str(&format!(" {} 0 {}", b, j));
+        // all nine fields, and what may (not) follow them
+        if rng.gen_range(0..3) == 0 {
+            hdr.push_str(" 0");
+            hdr.push_str(["", "", " ", " 0", "\t", " 1 2"][rng.gen_range(0..6)]);
+        }
     } else if b > 0 || rng.gen_range(0..4) == 0 {
         hdr.push_str(&format!(" {}", b));
     }
